@@ -351,6 +351,11 @@ def run(chk, tier):
     tried_surplus = {x["class"][6:].rsplit(":", 1)[0] for x in res if not x.get("empty") and x.get("class", "").startswith("shape:") and x["class"].endswith(":surplus")}
     noshape = sorted(l for l in lists & tried_surplus if shp.get(l, {}).get("native_shape_reject_surplus", 0) == 0
                      or (shp[l]["short"] == 0 and l not in empty_short))
+    # permanent cases: the lists whose surplus element the assignment routines used to drop silently (repaired in /repo:
+    # set_cap_target / set_extension_targets / lookup opening lengths) are resized in every run
+    permanent = ("wires_cap", "zs_cap", "quot_cap", "commit_cap:0", "op_zs_next", "op_quot", "op_lzs", "op_lzs_next", "final_poly")
+    if not set(permanent) <= tried_surplus:
+        raise ToolError("vacuity: permanent shape cases not exercised: %s" % sorted(set(permanent) - tried_surplus))
     if len(tried_surplus) < 12:
         raise ToolError("vacuity: only %d list classes were resized" % len(tried_surplus))
     if noshape:
